@@ -149,7 +149,9 @@ def cases(tier, seed):
                     # the order of the roots - also under --match-links, where every PATH counts as a replica
                     if sym is None and 2 in placement:
                         for order in (["r1/sub", "r1", "r1x"], ["r1", "r1/sub", "r1x"], ["r1/sub/deep", "r1x", "r1/sub/.."],
-                                      ["./r1/sub/", "r1x", "r1/sub/.."]):
+                                      ["./r1/sub/", "r1x", "r1/sub/.."],
+                                      # a root BELOW a symlinked directory (lnk_r1 -> r1), alone and next to its real name
+                                      ["lnk_r1/sub", "r1x"], ["r1/sub", "lnk_r1/sub", "r1x"], ["lnk_r1/sub/deep", "r1/sub", "r1x"]):
                             for flags in ([], ["-H"]):
                                 for flt in ([], ["--rf-over", "0"], ["--rf-over", "2"], ["--unique"]):
                                     meta = {"n": n, "rgs": rgs, "placement": list(placement), "sym": sym, "flags": flags,
